@@ -252,7 +252,7 @@ def fuzzy_equal(first: Array, second: Array, rel_tol: ArrayTolerance, abs_tol: A
 
     abs_diff = np.abs(second - first)
     thresholds = select_max_values(np.abs(first), np.abs(second))
-    thresholds *= rel_tol
+    thresholds = thresholds * rel_tol
     thresholds = select_max_values(thresholds, abs_tol)
     return np.less_equal(abs_diff, thresholds)
 
